@@ -189,7 +189,7 @@ def block_thermal_holstein(ctx, ht):
     explicit_sector = bool(rng.random() < 0.5)
     # per model: both sectors with a random scheme, then the one-exciton sector once more with the constant-mean-field scheme
     # and (every other model) with the plain variable-mean-field scheme
-    plan = [(False, None), (True, None), (True, schemes[-1])] + ([(True, schemes[-2])] if rng.random() < 0.5 else [])
+    plan = [(False, None), (True, None), (True, schemes[-1])] + ([(True, schemes[-2])] if (ht.nmol >= 2 or rng.random() < 0.3) else [])
     for ex, forced in plan:
         P = np.diag(ht.sector(1 if ex else 0).astype(float))
         # beta over two decades (in units of the spectral width)
@@ -227,7 +227,15 @@ def block_thermal_holstein(ctx, ht):
                 tp = ThermalProp(init, h_mpo_model=ht.model, evolve_config=make_cfg(spec, imag=True))
             else:
                 tp = ThermalProp(init, evolve_config=make_cfg(spec, imag=True))
-            tp.evolve(evolve_dt=-1j * beta / 2 / nsteps, nsteps=nsteps)
+            # the regularised mean-field equations can be arbitrarily stiff on the noise-filled purification: a run-away
+            # integration is abandoned (counted, not judged) after two minutes
+            from search_c12 import _Watchdog, _RunAway
+            try:
+                with _Watchdog(120 if spec["kind"] in ("vmf", "muvmf", "cmf", "ps", "ps2") else 600):
+                    tp.evolve(evolve_dt=-1j * beta / 2 / nsteps, nsteps=nsteps)
+            except _RunAway:
+                run.count(f"thermal:abandoned-after-120s:{nm}")
+                continue
         except Exception as e:
             es = exc_sig(e)
             if spec["kind"] == "cmf" and isinstance(e, FloatingPointError):
@@ -243,6 +251,9 @@ def block_thermal_holstein(ctx, ht):
         # integrators with beta/2/nsteps steps: order-2 estimate with a generous constant
         dt = beta / 2 / nsteps
         tol = 2e-3 + 2.0 * (nh * dt) ** 2 if spec["kind"] in ("ps", "ps2", "muvmf", "vmf", "cmf") else 1e-4 + 0.2 * nsteps * (nh * dt) ** 5
+        if spec["kind"] == "vmf":
+            # the variable-mean-field equations are integrated adaptively (rtol 1e-7): no splitting error in the step
+            tol = 5e-3
         worst = 0.0
         detail = None
         for k in range(nsteps + 1):
@@ -522,7 +533,7 @@ def search(run, rng, quick):
         nh_models = 2 if quick else 4
         schemes = list(rng.permutation([1, 2, 3, 4]))
         for k in range(nh_models):
-            ht = L.gen_holstein(rng, scheme=int(schemes[k % 4]))
+            ht = L.gen_holstein(rng, scheme=int(schemes[k % 4]), nmol=2 if k == 0 else None)    # at least one model with exciton coupling
             run.count(f"holstein:scheme{ht.scheme}:nmol={ht.nmol}:dim={ht.dim}")
             block_propagator(ctx, ht)
             block_evolve_exact(ctx, ht)
